@@ -21,10 +21,12 @@ def z_matrix():
 
 
 def h_matrix():
+    # Convert to a Python float first: sympy cannot sympify numpy 2 scalars.
+    inv_sqrt_2 = float(1 / np.sqrt(2))
     return sympy.Matrix(
         [
-            [(1 / np.sqrt(2)), (1 / np.sqrt(2))],
-            [(1 / np.sqrt(2)), (-1 / np.sqrt(2))],
+            [inv_sqrt_2, inv_sqrt_2],
+            [inv_sqrt_2, -inv_sqrt_2],
         ]
     )
 
